@@ -1179,3 +1179,17 @@ val need_blocks : call -> n
 val needs_inode : call -> bool
 
 val nospace_plausible : call -> n -> n -> bool
+
+val lOGSZ : n
+
+val lOGSTART : n
+
+type log_hdr = { lh_start : n; lh_end : n; lh_addrs : n list }
+
+val read_hdr : disk -> log_hdr
+
+val positions : nat -> n -> n list
+
+val recover_log : disk -> disk option
+
+val fs_part : disk -> (n * bytes) list
